@@ -101,7 +101,8 @@ def same_name_var_and_let(b):
 
 # constructs whose defect is fixed in /repo are no longer excluded: FIXED lists them permanently; VERIF_C09_LIFT=K5,K8 lifts more for a
 # trial run against a patched tree (maintenance)
-FIXED = set()
+FIXED_NOTES = {'K13': 'fixed: property=C09 652de3f K13 SVG path: the trailing "00" -> "e2" shortening was applied to exponent digits (L1e100 5 -> 1e1e2 5)'}
+FIXED = set(FIXED_NOTES)
 LIFTED = FIXED | set(filter(None, os.environ.get('VERIF_C09_LIFT', '').split(',')))
 
 
@@ -884,6 +885,7 @@ def _regen_known():
     with open(os.path.join(vlib.ROOT, 'known', 'C09.txt'), 'w') as f:
         f.write('# C09 known findings: generated by tools/props/c09.py _regen_known from known/C09.ndjson; never written at run time\n')
         f.write('\n'.join(lines) + '\n')
+        f.write('\n'.join(FIXED_NOTES[k] for k in sorted(FIXED_NOTES)) + '\n')
     print('kept %d of %d witnesses' % (len(keep), len(rows)))
 
 
